@@ -74,14 +74,14 @@ def parse_vspec(path):
             # optional numeric arg
             mm = re.match(r"^(\d+|\*)\s*(.*)$", rest)
             if mm and kind in ("loop", "inv", "invxb", "loopensures", "loopdec", "body-start", "body-end",
-                               "before", "after", "replace"):
+                               "before", "after", "replace", "block-end", "inherit"):
                 arg = 0 if mm.group(1) == "*" else int(mm.group(1))
                 rest = mm.group(2).strip()
             mt = re.match(r"^\[([^\]]*)\]\s*(.*)$", rest)
             if mt:
                 tags = [x.strip() for x in mt.group(1).split(",") if x.strip()]
                 rest = mt.group(2).strip()
-            if kind in ("before", "after", "replace"):
+            if kind in ("before", "after", "replace", "block-end"):
                 ma = re.match(r'^`(.*)`\s*$', rest)
                 if not ma:
                     raise ExtractError("%s:%d anchor must be in backticks" % (path, ln))
@@ -303,6 +303,14 @@ def weave_function(src_fn, spec, path, W, opts, meta):
             add(body_open + 1, "\n" + c.body + "\n")
         for c in spec.of("fn-end"):
             add(body_close, "\n" + c.body + "\n")
+        # `--- inherit N M`: loop N repeats the invariants of loop M (nested loops must restate them)
+        for c in spec.of("inherit"):
+            parts_ = c.name.split()
+            src_loop = int(parts_[0])
+            skip = set(x[1:] for x in parts_[1:] if x.startswith("-"))
+            for c2 in list(spec.clauses):
+                if c2.kind == "inv" and c2.arg == src_loop and (c2.name or "") not in skip and not (c2.name or "").startswith("inherited-"):
+                    spec.clauses.append(Clause("inv", c.arg, [], "inherited-%d-%s" % (src_loop, c2.name), c2.body, c2.src))
         loop_ids = sorted(set(c.arg for c in spec.clauses
                               if c.kind in ("loop", "inv", "invxb", "loopensures", "loopdec", "body-start",
                                             "body-end")))
@@ -337,7 +345,15 @@ def weave_function(src_fn, spec, path, W, opts, meta):
                 add(lc, semi + "\n" + c.body + "\n")
         for c in spec.of("before"):
             for hn, (a, b) in enumerate(find_anchor(toks[:body_close + 1], c.name, 1 if c.arg is None else c.arg), 1):
-                add(a, "\n" + c.body + "\n", ob("hint", c, {"name": "%s#%d" % (c.name, hn)}) if c.tags else None)
+                add(a, "\n" + c.body + "\n", ob("hint", c, {"name": "%s#%d" % (c.name, c.arg if c.arg else hn)}) if c.tags else None)
+        for c in spec.of("block-end"):
+            for hn, (a, b) in enumerate(find_anchor(toks[:body_close + 1], c.name, 1 if c.arg is None else c.arg), 1):
+                if toks[b - 1].text != "{":
+                    raise ExtractError("%s: block-end anchor must end with `{`" % path)
+                bc = match_close(toks, b - 1)
+                pk = prev_sig(toks, bc)
+                semi = "" if toks[pk].text in (";", "}", "{") else ";"
+                add(bc, semi + "\n" + c.body + "\n", ob("hint", c, {"name": "end-of:%s#%d" % (c.name, c.arg if c.arg else hn)}) if c.tags else None)
         for c in spec.of("replace"):
             for hn, (a, b) in enumerate(find_anchor(toks[:body_close + 1], c.name, 1 if c.arg is None else c.arg), 1):
                 # ghost-only replacement (names a closure's return value); checked: the replacement
@@ -360,7 +376,7 @@ def weave_function(src_fn, spec, path, W, opts, meta):
                     deleted.add(dk)
         for c in spec.of("after"):
             for hn, (a, b) in enumerate(find_anchor(toks[:body_close + 1], c.name, 1 if c.arg is None else c.arg), 1):
-                add(b, "\n" + c.body + "\n", ob("hint", c, {"name": "%s#%d" % (c.name, hn)}) if c.tags else None)
+                add(b, "\n" + c.body + "\n", ob("hint", c, {"name": "%s#%d" % (c.name, c.arg if c.arg else hn)}) if c.tags else None)
         if opts.get("vacuity"):
             add(body_open + 1, "\n    assert(false); // VACUITY-PROBE fn-start\n",
                 {"fn": path, "kind": "vacuity", "name": "fn-start", "tags": [], "text": ""})
